@@ -146,7 +146,7 @@ void run_vector(Ctx &c) {
 		if(!slot[s]) s = 0;
 		V &v = *slot[s];
 		size_t before = ref[s].size();
-		unsigned op = t.pick(25);
+		unsigned op = t.pick(26);
 		switch(op) {
 		case 0: { int x = nextv++; T e(x); c.op("v%d.push(const& %d)", s, x); T &r = v.push(e); ref[s].push_back(x); VCHECK(c, "C13", &r == &v[v.size() - 1], "push returned a reference to another element"); break; }
 		case 1: { int x = nextv++; T e(x); c.op("v%d.push(&& %d)", s, x); v.push(std::move(e)); ref[s].push_back(x); break; }
@@ -179,6 +179,13 @@ void run_vector(Ctx &c) {
 			if(exp) c.tag("equal-but-not-bytewise"); else c.tag("differ-in-one-element");
 			VCHECK(c, "C13", eq == exp && ne == !eq, "operator== gives %d and != gives %d, element-wise equality is %d", (int)eq, (int)ne, (int)exp); break; }
 		case 16: if(!ref[s].empty()) { size_t k = t.pick(ref[s].size()); int x = t.flip() ? ref[s][k] + 16 : nextv++; c.op("v%d[%zu] = %d", s, k, x); v[k] = T(x); ref[s][k] = x; } break;
+		case 24: { c.op("v%d.detach() (the caller takes over the storage)", s); c.tag("vector-detach");
+			T *stor = v.data(); size_t n = v.size();
+			v.detach();
+			VCHECK(c, "C13", v.size() == 0 && v.empty(), "after detach() size() is %zu", v.size());
+			for(size_t i = 0; i < n; i++) { VCHECK(c, "C13", payload(stor[i]) == ref[s][i], "detach() changed element %zu of the storage it handed over", i); stor[i].~T(); }
+			if(stor) { track_alloc a{7}; a.free(stor); }       // (slot 0's pool; blocks of other pools are reported by the registry only under C16)
+			ref[s].clear(); f.released_before_end = true; break; }
 		// arguments that refer to an element of the container itself (std::vector supports all of them, also when the call reallocates)
 		case 19: case 20: case 21: case 22: if(!ref[s].empty()) { size_t k = t.pick(ref[s].size()); int x = ref[s][k]; const void *before_data = v.data();
 			if(op == 19) { c.op("v%d.push(v%d[%zu])", s, s, k); v.push(v[k]); ref[s].push_back(x); }
@@ -425,6 +432,10 @@ void run_intrusive(Ctx &c) {
 				VCHECK(c, "C13", (*it)->hook.in_list, "intrusive_list[%d]: node %d in the list has in_list == false", s, (*it)->id);
 			}
 			VCHECK(c, "C13", n == ref[s].size(), "intrusive_list[%d]: forward walk yields %zu nodes, reference %zu", s, n, ref[s].size());
+			// the same walk through the value of the post-increment expression (*it++ yields the old position)
+			{ size_t k = 0; auto it = L[s]->begin();
+			  while(it != L[s]->end() && k <= ref[s].size()) { auto old = it++; VCHECK(c, "C13", k < ref[s].size() && *old == &nodes[ref[s][k]], "intrusive_list[%d]: it++ at position %zu returns node %d, the old position holds node %d", s, k, *old ? (*old)->id : -1, k < ref[s].size() ? ref[s][k] : -1); k++; }
+			  VCHECK(c, "C13", k == ref[s].size(), "intrusive_list[%d]: the walk with it++ yields %zu nodes, reference %zu", s, k, ref[s].size()); }
 			// backward walk over the public previous links
 			n = ref[s].size();
 			for(INode *p = L[s]->back(); p; p = p->hook.previous) {
